@@ -1,4 +1,46 @@
-import PatchModel.Spec.Place
+/-
+  C02 — a hunk is applied only where its old lines really are.
+  Property theorems only; helper lemmas live in PatchModel/Lemmas.
+-/
+import PatchModel.Spec.Script
+import PatchModel.Lemmas.Ws
+import PatchModel.Lemmas.Locate
 namespace PatchModel.C02
-theorem placeholder : True := trivial
+open PatchModel
+
+/-- the `-l` comparison is exactly "equal after collapsing blank runs and dropping trailing blanks",
+    for all pairs of byte strings -/
+theorem ws_spec (a b : Bytes) : miw a b = true ↔ normWs a = normWs b :=
+  miw_iff_normWs a b
+
+/-- `matches` is the spec relation `lineEqB` -/
+theorem lineMatches_spec (a b : Line) (iw : Bool) : lineMatches a b iw = lineEqB iw a b :=
+  lineMatches_eq_lineEqB a b iw
+
+/-- whatever `locate_hunk` returns for a hunk with an old side is an admissible placement at or after `min_line` -/
+theorem locate_sound (file : List Line) (h : Hunk) (iw : Bool) (offset maxFuzz : Int) (minLine : Nat) (loc : Location)
+    (hloc : locateHunk file h iw offset maxFuzz minLine = some loc) (hc : h.old.count ≠ 0) :
+    ∃ p f : Nat, loc.line = (p : Int) ∧ loc.fuzz = (f : Int) ∧ minLine ≤ p ∧
+      admissibleB file h iw maxFuzz p f = true ∧
+      loc.offset = (p : Int) - (expectedLine h - 1 + offset) := by
+  obtain ⟨p, f, e, h1, _, h2, _⟩ := locateHunk_some file h iw offset maxFuzz minLine loc hc hloc
+  subst e
+  exact ⟨p, f, rfl, rfl, h1, h2, rfl⟩
+
+/-- a context-free insertion goes to its stated line, inside the file, never before the cursor -/
+theorem locate_insertion (file : List Line) (h : Hunk) (iw : Bool) (offset maxFuzz : Int) (minLine : Nat) (loc : Location)
+    (hloc : locateHunk file h iw offset maxFuzz minLine = some loc) (hc : h.old.count = 0) :
+    loc.fuzz = 0 ∧ loc.offset = 0 ∧ loc.line = expectedLine h - 1 + offset ∧
+      (minLine : Int) ≤ loc.line ∧ loc.line ≤ (file.length : Int) := by
+  unfold locateHunk at hloc
+  simp only [hc, if_true] at hloc
+  split at hloc
+  · cases hloc
+  · split at hloc
+    · cases hloc
+    · next hr =>
+      injection hloc with hloc
+      subst hloc
+      refine ⟨rfl, rfl, rfl, ?_, ?_⟩ <;> simp only <;> omega
+
 end PatchModel.C02
